@@ -55,7 +55,14 @@ func GetIndexLetters(document *gedcom.Document, livingVisibility LivingVisibilit
 }
 
 func getIndexLetter(individual *gedcom.IndividualNode) rune {
-	name := strings.ToLower(individual.Name().Surname())
+	return getIndexLetterForSurname(individual.Name().Surname())
+}
+
+// getIndexLetterForSurname returns the letter of the index page that lists the
+// individuals with this surname. Everything that links to an index page must
+// use it, otherwise the link may point to a page that does not exist.
+func getIndexLetterForSurname(surname string) rune {
+	name := strings.ToLower(surname)
 
 	switch {
 	case name == "", name[0] < 'a', name[0] > 'z':
